@@ -728,7 +728,7 @@ func (w *World) poolOp(op J) (J, error) {
 		}
 		k, ok := w.money.abs(lp)
 		if !ok {
-			w.tr.flagAmt("paid %s is not a multiple of the unit", lp.String())
+			w.tr.flagAmt("paid %s is not a multiple of the unit", bigStr(lp))
 		}
 		return okRes(k), nil
 	case "Account":
@@ -771,7 +771,7 @@ func (pw *PoolWorld) project(st J) {
 		}
 		k, ok := pw.w.money.abs(v)
 		if !ok {
-			pw.w.tr.flagAmt("paid total %s is not a multiple of the unit", v.String())
+			pw.w.tr.flagAmt("paid total %s is not a multiple of the unit", bigStr(v))
 		}
 		paid[a] = k
 		d, ok := pw.w.money.abs(pw.dep.deposit(store.Account(pw.w.names.wallet(a))))
